@@ -232,6 +232,9 @@ func Run(ctx *core.Ctx) {
 				}
 			}
 		}
+		if v := os.Getenv("VERIF_C04_ONLYLOG"); v != "" && v != fmt.Sprint(li) {
+			continue // debugging aid: the PRNG stream above is consumed identically
+		}
 		list := make([]int, 0, len(offs))
 		for t := range offs {
 			list = append(list, t)
